@@ -157,10 +157,28 @@ fn      ret
 """, 0
 
 
-PROGRAMS = [p_countdown, p_nested_jsr, p_call_rets, p_push_pop, p_selfmod, p_exception, p_halt_middle, p_breaks, p_io,
+def p_store_outside(rnd):
+    v = rnd.randrange(1, 16)
+    return f"""        and r0 r0 #0
+        add r1 r1 #{v}
+        str r1 r0 #-1
+        str r1 r0 #0
+        ld r2 ptr
+        str r1 r2 #0
+        sti r1 ptr2
+        ldr r3 r0 #-1
+        add r0 r3 #0
+        putn
+        halt
+ptr     .fill xFE00
+ptr2    .fill x2FFF
+""", 0
+
+
+PROGRAMS = [p_store_outside, p_countdown, p_nested_jsr, p_call_rets, p_push_pop, p_selfmod, p_exception, p_halt_middle, p_breaks, p_io,
             p_unknown_trap, p_selfloop, p_no_halt, p_high]
 
-LABELS = ["loop", "main", "val", "fn", "save", "gn", "done", "target", "newi", "dest", "mid", "start", "second", "lbl",
+LABELS = ["ptr", "ptr2", "loop", "main", "val", "fn", "save", "gn", "done", "target", "newi", "dest", "mid", "start", "second", "lbl",
           "msg", "spin", "tight", "top", "nolabel", "Loop"]
 
 
@@ -272,7 +290,7 @@ READONLY = ["step", "stepinto", "stepout", "continue", "breakadd", "breakremove"
             "assembly", "echo", "help"]
 MUTATING = ["move", "goto", "eval", "reset"]
 
-EVALS = ["add r0 r0 #1", "add r1 r2 r3", "and r3 r3 #0", "not r4 r4", "ld r0 val", "st r1 save", "lea r2 msg", "ldr r1 r0 #0",
+EVALS = ["str r1 r0 #-1", "str r7 r0 #-1", "sti r1 ptr2", "add r0 r0 #1", "add r1 r2 r3", "and r3 r3 #0", "not r4 r4", "ld r0 val", "st r1 save", "lea r2 msg", "ldr r1 r0 #0",
          "str r1 r0 #1", "jmp r2", "ret", "jsr fn", "jsrr r1", "ldi r3 dest", "sti r3 dest", "putn", "out", "reg",
          "br loop", "brz done", "rti", "halt", "trap x25", "trap x99", "trap x21", "add r1 r1 r1 r1", "add r1", "add",
          ".fill x1", "halt halt", "ld r0 nolabel", "push r1", "pop r2", "rets", "call fn", "xyz", "\"str\"", "#5"]
